@@ -206,4 +206,27 @@ theorem Finding_cog14_domain :
   rintro ⟨-, -, -, -, -, -, -, hB, -⟩
   norm_num at hB
 
+/-! ### The returned (tree-level) fields
+
+The traced decision tree has a single leaf and no path condition: the returned fields *are* those
+of leaf 0 (definitionally), so the leaf theorems are statements about what the solver returns. -/
+
+theorem cog14_tree : Cog14.density = Cog14.L0.density ∧ Cog14.velocity = Cog14.L0.velocity
+    ∧ Cog14.temperature = Cog14.L0.temperature ∧ ∀ p r t, Cog14.outcome p r t = .ok := ⟨rfl, rfl, rfl, fun _ _ _ => rfl⟩
+
+theorem cog14_mass_tree (p : Cog14.P) (r t : ℝ) (hr : 0 < r) :
+    massRes (Cog14.density p) (Cog14.velocity p) (p.geometry - 1) r t = 0 :=
+  cog14_mass p r t hr
+
+theorem cog14_momentum_tree (p : Cog14.P) (r t : ℝ) (hwd : Cog14.L0.WellDefined p r t) :
+    momResT (Cog14.density p) (Cog14.velocity p) (Cog14.temperature p) p.Gamma r t = 0 :=
+  cog14_momentum p r t hwd
+
+theorem cog14_energy_tree (p : Cog14.P) (r t : ℝ) (hwd : Cog14.L0.WellDefined p r t)
+    (hΓ0 : 0 < p.Gamma) (hlam : 0 < p.lambda0) (hγ1 : 1 < p.gamma)
+    (hb0 : 0 < cog14_b p) (hbk : cog14_b p < p.geometry - 1) :
+    energyResT (Cog14.density p) (Cog14.velocity p) (Cog14.temperature p)
+      p.Gamma p.gamma (p.geometry - 1) 29970000000 (686 / 5) p.lambda0 p.alpha p.beta r t = 0 :=
+  cog14_energy p r t hwd hΓ0 hlam hγ1 hb0 hbk
+
 end EPV.C01
